@@ -1148,9 +1148,19 @@ func (c *Conn) readAll(r io.Reader, size int) (*[]byte, error) {
 	pbuf := c.Engine.BodyAllocator.Malloc(size)
 	*pbuf = (*pbuf)[0:0]
 	for {
-		n, err := r.Read((*pbuf)[len(*pbuf):cap(*pbuf)])
+		// never read more than one byte beyond the limit, whatever capacity
+		// the allocator handed out: one byte too many is enough to know.
+		end := cap(*pbuf)
+		if c.MessageLengthLimit > 0 && end > c.MessageLengthLimit+1 {
+			end = c.MessageLengthLimit + 1
+		}
+		n, err := r.Read((*pbuf)[len(*pbuf):end])
 		if n > 0 {
 			*pbuf = (*pbuf)[:len(*pbuf)+n]
+		}
+		if c.isMessageTooLarge(len(*pbuf)) {
+			c.Engine.BodyAllocator.Free(pbuf)
+			return nil, ErrMessageTooLarge
 		}
 		if err != nil {
 			if err == io.EOF {
